@@ -9,12 +9,19 @@ Emboss/Spec/Fmt.lean; lemmas: Emboss/Lemmas/Fmt*.lean.
 The kernel evaluations over the regenerated tables are in Lemmas/FmtTableOK.lean,
 FmtNormalOK.lean, FmtSeparableOK.lean (re-elaborated only when a generated file changes).
 
+Round 3 adds the blank-line normal form (`C11_format_factors_blank`, `C11_idempotent_partial`;
+Spec/FmtEquivB.lean, Lemmas/FmtBlank.lean) and the composition of the formatter model with
+the tokenizer model of C10 (`C11_retokenize_partial`, `C11_retokenize_checked`,
+`C11_retokenize_module_partial`, `C11_columnize_retokenizes_partial`,
+`C11_row_retokenizes_partial`; Spec/FmtRetok.lean, Lemmas/FmtRetok*.lean).
+
 What is *not* a theorem here (decided by the correspondence + oracle on the real code,
-and labelled so in the manifest): fmt(fmt t) = fmt t in full (`C11_format_fixed_point_partial`
-needs the parse tree of the output to be equivalent to the input tree), and that the
-formatted text re-tokenizes to the same tokens (needs tokenizer ∘ parser ∘ render as one
-object; `C11_tokens_preserved` + `C11_render_separable` are its character-level and
-token-class-level parts).
+and labelled so in the manifest): fmt(fmt t) = fmt t in full (`C11_idempotent_partial`
+needs the parse tree of the output to be the input tree up to layout texts, trailing
+blanks and blank lines at the ends of comment blocks: evaluated per case by the harness),
+and that the leaves the formatted text tokenizes to (`C11_retokenize_checked`: a theorem
+instance per case) are the content leaves of the tree (`C11_tokens_preserved` +
+`C11_render_separable` are its character-level and token-class-level parts).
 -/
 import Emboss.Lemmas.FmtSanity
 import Emboss.Lemmas.FmtTableOK
